@@ -345,6 +345,22 @@ func (vc *VC) goInstr(x *ssa.Go, st *State) {
 	vc.goHook(x, st)
 	// the spawned function starts in (a successor of) this state: its preconditions are owed here
 	c := x.Common()
+	// every goroutine started by a function under contract is recorded (trivially discharged) so that the
+	// baseline knows which ones existed: a new one moves work out of the sequential order the contracts
+	// describe, and the check reports it
+	if vc.fc != nil && vc.inlineDepth == 0 {
+		what := "a-function-value"
+		if c.IsInvoke() {
+			what = c.Method.Name()
+		} else if f, ok := c.Value.(*ssa.Function); ok {
+			what = funcRelName(f)
+		} else if mc, ok := c.Value.(*ssa.MakeClosure); ok {
+			if f, ok := mc.Fn.(*ssa.Function); ok {
+				what = funcRelName(f)
+			}
+		}
+		vc.oblige("spawn", what, "true", x.Pos())
+	}
 	if _, ok := c.Value.(*ssa.Builtin); ok || c.IsInvoke() {
 		return
 	}
